@@ -202,11 +202,12 @@ class Ctx:
 
     def validate_traces(self, module, cfg, traces, family=None, timeout=900, max_rejects=25, dfs=False):
         """traces: list of event lists (without Reset). Validates their concatenation, each
-        prefixed by a Reset event; returns list of (index, local_line, event) for rejected traces.
-        A rejection never hides later traces: validation restarts after the rejected one."""
+        prefixed by a Reset event. Returns a list of (trace index, local line, event, expected):
+        every reply the spec reports as MISMATCH (the trace continues after those) and, for
+        events the spec cannot explain at all, the first such line of that trace (validation
+        restarts after the rejected trace, so a rejection never hides later traces)."""
         rejected = []
         start = 0
-        total = 0
         while start < len(traces):
             evs, owner = [], []
             for i in range(start, len(traces)):
@@ -214,18 +215,27 @@ class Ctx:
                 for j, ev in enumerate(traces[i]):
                     evs.append(ev); owner.append((i, j + 1))
             ok, hw, out = self.validate_events(module, cfg, evs, family=family, timeout=timeout, dfs=dfs)
-            total += 1
+            for m in re.finditer(r'<<"MISMATCH", (\d+), (.*)>>', out):
+                ln = int(m.group(1)) - 1
+                if ln < hw or ok:
+                    i, j = owner[ln]
+                    rejected.append((i, j - 1, traces[i][j - 1], m.group(2)))
             if ok:
                 break
             i, j = owner[hw]  # first unexplained line (0-based index hw)
             if j == 0:
                 raise Undecided("trace spec rejected a Reset event:\n" + out[-2000:])
-            rejected.append((i, j - 1, traces[i][j - 1]))
-            if len(rejected) >= max_rejects:
-                self.notes.append("stopped after %d rejected traces" % max_rejects)
+            rejected.append((i, j - 1, traces[i][j - 1], None))
+            if len(rejected) >= max_rejects * 40:
+                self.notes.append("stopped after %d rejections" % len(rejected))
                 break
             start = i + 1
-        return rejected
+        # deduplicate (a restart never revisits earlier traces, but be safe)
+        seen, out2 = set(), []
+        for r in rejected:
+            if (r[0], r[1]) not in seen:
+                seen.add((r[0], r[1])); out2.append(r)
+        return out2
 
     # --------------------------------------------------------------- verdicts
     def save_replay(self, name, obj):
